@@ -215,7 +215,12 @@ G_Handle(p, r) == st[p][r] = "handling"
 Handle(p, r) ==
     /\ G_Handle(p, r)
     /\ st' = [st EXCEPT ![p][r] = "exited"]
-    /\ out' = [out EXCEPT ![p][r] = IF peersClosed \/ gone[p] \/ ~loopOn[p] THEN "lost" ELSE "answered"]
+    \* Run's teardown closes the peers one after the other: between the listener's close and the end of the
+    \* teardown this peer's transport may or may not be closed already
+    /\ \E o \in {"answered", "lost"} :
+         /\ (o = "answered") => ~(peersClosed \/ gone[p] \/ ~loopOn[p])
+         /\ (o = "lost") => (lclosed \/ gone[p] \/ ~loopOn[p])
+         /\ out' = [out EXCEPT ![p][r] = o]
     /\ act' = Lbl("Handle", p, r)
     /\ UNCHANGED <<lim, sem, sub, loopOn, gone, tgLive, stop, lclosed, peersClosed, dead, runLive, conn, th>>
 
@@ -472,7 +477,7 @@ BackPressureNotDrop ==
             \/ out'[p][r] = "dropsub" /\ SubnetOn /\ sub[SubnetOf(p)] >= lim.maxSubnet
             \/ out'[p][r] = "rejected" /\ stop # "no"
             \/ out'[p][r] = "dropshut" /\ ~loopOn[p]
-            \/ out'[p][r] = "lost" /\ (peersClosed \/ gone[p] \/ ~loopOn[p])]_vars
+            \/ out'[p][r] = "lost" /\ (lclosed \/ gone[p] \/ ~loopOn[p])]_vars
 LoopExitsOnlyOnShutdown == \A p \in Peers : ~loopOn[p] => (stop # "no" \/ lclosed \/ gone[p])
 
 \* inbound / outbound peer caps
